@@ -264,7 +264,9 @@ for p in props:
         'replay_cmd_template': './check %s --replay {path}' % pid,
         'engine': 'pyvc',
         'level_claimed': {'category': 'proof', 'text': c['text'], 'design_ref': c['design_ref']},
-        'level_note': c['note'],
+        'level_note': c['note'] + ' Bounded native stand-ins that run with this check (labelled bounded, never counted as proved) '
+                      'and every assumed contract are listed in the evidence file (coverage.bounded_standins, assumptions); the build '
+                      'report is DESIGN.md section 12.',
         'technique': c['technique'],
     })
 m = {
